@@ -17,6 +17,7 @@ import (
 	"errors"
 	"fmt"
 	"log/slog"
+	"net"
 	"net/netip"
 	"os"
 	"runtime/pprof"
@@ -255,19 +256,33 @@ func TestVerifC49RealSockets(t *testing.T) {
 		if base == nil {
 			return
 		}
-		// descriptors: everything opened since the baseline must be gone
-		var extra []string
-		for a := 0; a < c49rAttempts; a++ {
-			extra = c49rNewFds(base, c49rFds())
-			if len(extra) == 0 {
-				break
-			}
-			time.Sleep(10 * time.Millisecond)
+		// Descriptors: everything opened since the baseline must be gone. No clock is involved when every node of the scenario
+		// has no goroutine left: then nothing of theirs can run any more, and whatever is still open stays open.
+		extra := c49rNewFds(base, c49rFds())
+		left := 0
+		for _, n := range nodes {
+			k, _ := c49Alive(n.label, true)
+			left += k
 		}
-		if len(extra) > 0 {
-			r.Inconclusive(fmt.Sprintf("%s: descriptors opened after the baseline are still open after Stop+Wait and the polling bound: %v", class, extra))
-		} else {
+		switch {
+		case len(extra) == 0:
 			r.Count("scenarios_with_descriptors_back_to_baseline", 1)
+		case left == 0:
+			kinds := map[string]bool{}
+			for _, e := range extra {
+				_, t, _ := strings.Cut(e, "->")
+				t, _, _ = strings.Cut(t, ":")
+				kinds[t] = true
+			}
+			var ks []string
+			for k := range kinds {
+				ks = append(ks, k)
+			}
+			sort.Strings(ks)
+			r.Violation("C49/descriptor-open-after-stop:"+strings.Join(ks, ","), fmt.Sprintf("%s (real sockets): Stop and Wait returned, the node(s) own no goroutine any more, and descriptors opened since Main are still open: %v", class, extra),
+				map[string]any{"class": class, "descriptors": extra})
+		default:
+			r.Inconclusive(fmt.Sprintf("%s: descriptors opened after the baseline are still open and %d node goroutine(s) are still alive: %v", class, left, extra))
 		}
 	}
 
@@ -280,7 +295,13 @@ func TestVerifC49RealSockets(t *testing.T) {
 		return n
 	}
 	opened := func(class string, base map[string]string, want int) {
-		k := len(c49rNewFds(base, c49rFds()))
+		k := 0
+		for a := 0; a < c49rAttempts; a++ {
+			if k = len(c49rNewFds(base, c49rFds())); k >= want {
+				break
+			}
+			time.Sleep(10 * time.Millisecond)
+		}
 		r.Count("descriptors_opened_by_nodes", k)
 		if k < want {
 			r.Inconclusive(fmt.Sprintf("%s: expected at least %d new descriptors while the node(s) live, saw %d (the observation would be vacuous)", class, want, k))
@@ -386,12 +407,15 @@ func TestVerifC49RealSockets(t *testing.T) {
 
 	// the first node of the process initialises lazily opened descriptors (epoll, urandom...) that are not the node's: no
 	// descriptor comparison for it
+	if ln, err := net.Listen("tcp", "127.0.0.1:0"); err == nil {
+		ln.Close() // the network poller's own descriptors exist from here on
+	}
 	if n := build("first", "w", "10.1.0.250/16", nil); n != nil {
 		n.do(func() { n.c.Start() })
 		time.Sleep(50 * time.Millisecond)
 		stopAndCheck("first-node-of-the-process", nil, n)
 	}
-	reps := verifkit.Scale(2, 25)
+	reps := verifkit.Scale(2, 40)
 	idx := 0
 	for rep := 0; rep < reps; rep++ {
 		for _, s := range scns {
